@@ -1,19 +1,28 @@
 (* C16 — property theorems (statements only; proofs live in Proofs*.v). *)
 From Coq Require Import ZArith QArith Qabs List Bool.
-Require Import QV.C16.Model QV.C16.Spec QV.C16.Proofs QV.C16.Proofs2 QV.C16.Proofs3.
+Require Import QV.C16.Model QV.C16.Spec QV.C16.Proofs QV.C16.Proofs2 QV.C16.Proofs3 QV.C16.Proofs4 QV.C16.Proofs5.
 Import ListNotations.
 Open Scope Z_scope.
 
-(* The full property for the model (NOT proved as one theorem; the proved parts follow, the remaining gap is the
-   index bookkeeping of parse_aseq_program / segment de-duplication, which is covered by the correspondence check and
-   by evaluating `expand` on the implementation's tables in every case). *)
-Definition C16_plays_statement : Prop :=
-  forall c tbl prog o,
-    good prog = true -> 1 <= c_min c ->
-    (forall w1 w2 d1 d2, nth_error tbl w1 = Some d1 -> nth_error tbl w2 = Some d2 -> wf_cls d1 = wf_cls d2 -> d1 = d2) ->
-    (forall w d, nth_error tbl w = Some d -> (wf_len d == inject_Z (wf_n d))%Q) ->
-    compile c tbl prog = Ok o ->
-    exists s, spec c tbl prog = Some s /\ expand o = Some s.
+(* (0) THE property, for the model of TaborProgram.__init__: whenever the compiler accepts a program, the tables it
+   emits, played by the independent table player `expand` (advanced table -> sequencer tables -> segments, binary
+   layout decoded), give exactly the specification's streams: the source program's samples in play order, converted to
+   14-bit codes on both channels, and both marker channels as booleans at half rate.  Both modes, every tree shape,
+   repetition count, channel / marker assignment (incl. None), amplitude, offset, affine transformation, limits.
+   Hypotheses = the modelled input domain: counts >= 0 and inner nodes carry no waveform (`good`); waveforms of one
+   equality class have equal sample data (the compiler samples the first object of a class); the exact sample count
+   of every waveform is its `wf_n` (no length strictly inside the 1e-10 tolerance of get_waveform_length).
+   Proof: restructuring stage (1) + index invariants of the three setdefault de-duplications (waveforms, sequencer
+   tables, segments: a recorded index always resolves to an entry equal to the registered one) + segment stage (2) +
+   half-rate lemma (2b). *)
+Theorem C16_plays : forall c tbl prog o,
+  good prog = true ->
+  (forall w1 w2 d1 d2, nth_error tbl w1 = Some d1 -> nth_error tbl w2 = Some d2 -> wf_cls d1 = wf_cls d2 -> d1 = d2) ->
+  (forall w d, nth_error tbl w = Some d -> (wf_len d == inject_Z (wf_n d))%Q) ->
+  compile c tbl prog = Ok o ->
+  exists s, spec c tbl prog = Some s /\ expand o = Some s.
+Proof. exact compile_plays. Qed.
+Print Assumptions C16_plays.
 
 (* (1) restructuring: for EVERY fuel of the two loops (termination is not claimed), every tree shape, repetition
    count, measurement flag and device limit: if flatten_and_balance(2) and prepare_program_for_advanced_sequence_mode
